@@ -64,6 +64,9 @@ struct in_dec { UChar text[MAXD]; int32_t n; int enabled; };
 DECL_IN(in_dec)
 void harness_decode_text(void) {
     struct in_dec in = GET_IN(in_dec);
+#ifdef FIXN
+    in.n = FIXN;   /* one job per concrete length: a symbolic-size malloc inside decode_text exhausts memory in CBMC's array post-processing */
+#endif
     PRE(in.n >= 1 && in.n <= MAXD);
     for (int i = 0; i < MAXD; i++) PRE(i >= in.n || (in.text[i] != 0 && in.text[i] < 0xFFFF));
     struct scanner_s *s = malloc(sizeof *s); PRE(s != NULL);
